@@ -300,6 +300,51 @@ def run(ck: Check) -> int:
         sr.samples = [d for d, *_ in search_rows[:2]]
     ck.search('spec-filtered-walk', s_spec)
 
+    def s_interleave(sr):
+        # two walks of ONE object interleaved: an imatch() iterator advanced k values, then a complete match() of the same object, then the
+        # rest of the iterator — both sequences are the object's uninterrupted result (added after seeded change C14j: the root-relative
+        # folder prefix was kept on the object, so the resumed walk tested its files against the other walk's last folder)
+        import shutil
+        import tempfile
+        tmp = tempfile.mkdtemp(prefix='c14i-', dir='/tmp')
+        sr.note = ('one WcMatch object, tree a/ b/ c/ d/e/ with *.txt *.log *.md in each: patterns that depend on the directory part under FILEPATHNAME '
+                   '(± DIRPATHNAME with an exclusion, ± base-name mode), every split point k: list(islice(it, k)) + match() + list(it)')
+        try:
+            for d in ('a', 'b', 'c', 'd/e'):
+                os.makedirs(os.path.join(tmp, d))
+                for f in ('0.txt', '1.log', '2.md', '3.txt'):
+                    open(os.path.join(tmp, d, f), 'w').close()
+            open(os.path.join(tmp, 'top.txt'), 'w').close()
+            import itertools
+            cases = [('a/*.txt|b/*.log|c/*.md', None, WM.RECURSIVE | WM.FILEPATHNAME), ('*/[01].*', 'c', WM.RECURSIVE | WM.FILEPATHNAME | WM.DIRPATHNAME),
+                     ('**/3.txt|a/*', 'd/e', WM.RECURSIVE | WM.PATHNAME | WM.GLOBSTAR), ('*.txt', 'b', WM.RECURSIVE), ('d/e/*|top.*', None, WM.RECURSIVE | WM.FILEPATHNAME),
+                     ('*.log', None, WM.RECURSIVE | WM.FILEPATHNAME | WM.MATCHBASE)]
+            for fp, xp, fl in cases:
+                obj = WM.WcMatch(tmp, fp, xp, fl)
+                full = obj.match()
+                sk_full = obj.get_skipped()
+                for k in range(0, len(full) + 1):
+                    sr.evaluations += 1
+                    it = obj.imatch()
+                    head = list(itertools.islice(it, k))
+                    other = obj.match()
+                    rest = list(it)
+                    if head + rest != full or other != full:
+                        rel = lambda xs: [os.path.relpath(x, tmp) for x in xs]      # noqa: E731
+                        ck.report(Failing(f'interleaved walks of one object: imatch() advanced {k} values, match(), rest of the iterator — '
+                                          f'{"the resumed iterator" if head + rest != full else "the inner match()"} differs from the uninterrupted result',
+                                          {'api': 'wcmatch.WcMatch', 'file_pattern': fp, 'exclude_pattern': xp, 'flags': fl, 'split_at': k,
+                                           'tree': 'a/ b/ c/ d/e/ x {0.txt, 1.log, 2.md, 3.txt}, top.txt'}, rel(full), {'iterator': rel(head + rest), 'match': rel(other)}), None)
+                        sr.histogram['FAIL'] = sr.histogram.get('FAIL', 0) + 1
+                        break
+                    sr.histogram['holds'] = sr.histogram.get('holds', 0) + 1
+                if obj.match() != full or obj.get_skipped() != sk_full:
+                    ck.report(Failing('a run after interleaved runs differs from the first run', {'api': 'wcmatch.WcMatch', 'file_pattern': fp, 'flags': fl}, None, None), None)
+            sr.distinct = len(cases)
+        finally:
+            shutil.rmtree(tmp, ignore_errors=True)
+    ck.search('interleaved-walks-of-one-object', s_interleave)
+
     if drv:
         drv.close()
     return ck.finish(assumptions=[
